@@ -28,11 +28,28 @@ KindsOf(ss) ==
          : j \in 1..Len(ss)}
 Kinds(p) == LET K == KindsOf(p.body) IN SelectSeq(KindOrder, LAMBDA k : k \in K)
 
+\* for a rejected "missing return": the kinds of the non-terminating statements in tail position (the statements the body's
+\* statement list - or a branch of its last statement - ends with); part of the signature only, never of the verdict
+TailOrder == KindOrder \o <<"call", "flcall", "recv", "panic", "delete", "empty">>
+TailKind(s) == IF s.k = "expr" THEN (IF s.e.k = "builtin" THEN s.e.name ELSE IF s.e.k = "un" THEN "recv" ELSE s.e.k) ELSE s.k
+RECURSIVE Culprits(_)
+Culprits(ss) ==
+  IF Len(ss) = 0 THEN {"empty"}
+  ELSE LET s == ss[Len(ss)] IN
+       IF TermStmt(s) THEN {}
+       ELSE LET inner == CASE s.k = "block" -> Culprits(s.body)
+                           [] s.k = "if" -> IF s.haselse THEN Culprits(s.then) \cup Culprits(s.els) ELSE {}
+                           [] s.k \in {"switch", "tswitch", "select"} -> UNION {Culprits(s.clauses[c].body) : c \in 1..Len(s.clauses)}
+                           [] OTHER -> {} IN
+            IF inner = {} THEN {TailKind(s)} ELSE inner
+CulpritSeq(p, v) == IF v # "missing return" THEN <<>> ELSE LET C == Culprits(p.body) IN SelectSeq(TailOrder, LAMBDA k : k \in C)
+
 \* signature: family, program group, statement context, what the judgment demands (and by which rule), what Build did,
 \* the expression (kind, operator / callee / target type, operand leaves) and the statement kinds of the body
 Sig(r) == LET v == Verdict(r.prog) IN
           [fam |-> "types", grp |-> r.prog.grp, ctx |-> r.prog.ctx, want |-> IF v = "ok" THEN "accept" ELSE "reject", rule |-> v,
-           got |-> r.builds, e |-> r.prog.desc, kinds |-> IF r.prog.grp = "exprctx" THEN <<>> ELSE Kinds(r.prog)]
+           got |-> r.builds, e |-> r.prog.desc, kinds |-> IF r.prog.grp = "exprctx" THEN <<>> ELSE Kinds(r.prog),
+           tail |-> CulpritSeq(r.prog, v)]
 
 (* ---- record walk.  As the skeleton of spec/lib2/Trace_HTMLEscape.tla, except that the indices of the (at most 400) bad
    records are carried in the state instead of being recomputed by a constant definition: TLC pre-evaluates constant
